@@ -50,9 +50,14 @@ def _playback_on_real_code(scratch, unit, harness, test_text):
     if unit.features:
         cmd += ["--features", unit.features]
     cmd += ["--", test_name, "--nocapture"]
-    rc, out, secs = run(cmd, cwd=scratch.tree, timeout=1500, env={"RUST_BACKTRACE": "0", "CARGO_TARGET_DIR": os.path.join(KANI_TARGET, "playback")})
+    rc, out, secs = run(cmd, cwd=scratch.tree, timeout=1500, env=dict(unit.env, RUST_BACKTRACE="0", CARGO_TARGET_DIR=os.path.join(KANI_TARGET, "playback")))
+    os.makedirs(REPLAY_DIR, exist_ok=True)
+    open(os.path.join(REPLAY_DIR, "%s.playback.log" % harness.name), "w").write(out)
     if rc is None:
         return None, "playback timed out\n" + out[-1500:]
+    errs = "\n".join(m.group(0) for m in re.finditer(r"^error[^\n]*\n(?:[^\n]*\n){0,8}", out, re.M))
+    if errs and "test result:" not in out:
+        return None, "playback build failed:\n" + errs[:3000]
     if re.search(r"test result: FAILED|panicked at|test .* \.\.\. FAILED", out):
         return True, out[-3000:]
     if re.search(r"test result: ok\. 1 passed", out):
@@ -104,7 +109,7 @@ def make_violation(prop, scratch, v, n, harness_reports):
                    bound=h.bound, failed_checks=v["failed"], verifier_output=r.raw[-6000:])
         reproduced = None
         if h.replay == "playback":
-            test, out = K.playback_values(scratch.tree, unit.crate, r.full_name or h.name, 1500, features=unit.features)
+            test, out = K.playback_values(scratch.tree, unit.crate, r.full_name or h.name, 1500, features=unit.features, env=unit.env)
             if test:
                 rec["concrete_playback_test"] = test
                 rec["inputs"] = _decode_vals(test)
